@@ -102,4 +102,7 @@ theorem reader_constants_are_the_modelled_ones :
 example : (readBlock 3 ⟨[], ⟨sb "abcOK", [1, 1, 1, 1], []⟩, [], []⟩).toOption.map (·.1) = some (sb "abc") := by
   decide
 
+/-- the regular expressions `sievelib/managesieve.py` uses now are the ones the model implements -/
+theorem client_patterns_are_the_modelled_ones : Generated.clientPatterns = Client.patterns := by decide
+
 end C05
